@@ -345,16 +345,14 @@ def run(ctx):
             raise vlib.Broken("the faithful model no longer exhibits the corrupt-remote-header revert (got %s)" % r["violated"])
         expect_temporal(ctx, "Sync_underflow.cfg", "EventuallyConverges",
                         "as coded (remoteHeight-1 underflow): convergence must fail")
-        # vacuity: every action is taken.  StoreErr (a verified block of the wrong height reaching Store un-cancelled)
-        # and RevertBreak (revert loop on an empty chain) are defensive code, unreachable in the repaired design
-        # (TLC: 0 of 10.5 M states); the Ack / Post / End / Apply steps exist only with Fine = TRUE.
+        # vacuity: every action is taken.  RevertBreak (revert loop on an empty chain) is defensive code, unreachable
+        # in the repaired design; the Ack / Post / End / Apply steps exist only with Fine = TRUE.
         r = ctx.tlc_check("sync", "MCSync.tla", "Sync_live4.cfg", timeout=1800, coverage=True,
                           label="repaired: safety+liveness (chain<=4)")
-        vlib.require_actions_covered(r, ignore=("StoreErr", "RevertBreak", "StoreAck", "StorePost", "RevertAck",
-                                                "RevertEnd", "PollApply"))
+        vlib.require_actions_covered(r, ignore=("RevertBreak", "StoreAck", "StorePost", "RevertAck", "RevertEnd", "PollApply"))
         r = ctx.tlc_check("sync", "MCSync.tla", "Sync_fine.cfg", timeout=1800, coverage=True,
                           label="repaired, fine-grained steps: safety+liveness")
-        vlib.require_actions_covered(r, ignore=("StoreErr", "RevertBreak", "SrcExtend"))   # chain = 3 = MaxLen here
+        vlib.require_actions_covered(r, ignore=("RevertBreak", "SrcExtend"))   # chain = 3 = MaxLen here
         ctx.tlc_check("sync", "MCSync.tla", "Sync_lagw.cfg", timeout=1800, label="repaired, Lag=W as in the code (chain 5): safety")
         ctx.tlc_check("sync", "MCSync.tla", "Sync_faults2.cfg", timeout=1800, label="repaired: safety, chain<=4, 1 source step, 2 faults")
         ctx.tlc_check("sync", "MCSync.tla", "Sync_thorough.cfg", timeout=3000,
@@ -377,6 +375,9 @@ def run(ctx):
         "at a version that was current at some moment between the request and its delivery",
         "a source call whose context is cancelled fails (as the feeder client does)",
         "stale latest-header answers are heights of the answering version's own chain",
+        "wrong-height and forged (re-sealed state diff) answers are given to the fetch pipeline only; the revert loop "
+        "is answered honestly, with an error or with a corrupted copy (a wrong-height answer there would be one more "
+        "instance of the known unverified-remote-header defect)",
         "goroutine scheduling inside the node between two source calls is whatever the Go runtime did in the recorded "
         "runs (GOMAXPROCS 2 and 3); the specification's exhaustive exploration covers all of it only at design level",
         "design switches in effect: " + ", ".join("%s=%s" % (k, b(v)) for k, v in sorted(sw.items())),
@@ -386,6 +387,6 @@ def run(ctx):
         "exhaustive TLC on Sync.tla (chain <= 3/4/5 blocks, <= 2 source steps incl. whole-chain reorgs, 2 fetch workers, "
         "<= 2 injected faults; safety as action properties, convergence under per-action weak fairness, no state "
         "constraint) + recorded runs of the real Synchronizer (3 scripted defect reproductions + seeded random source "
-        "scripts: chains of 3-14 blocks, 0-3 source steps, errors / corrupt blocks / stale heads / late answers), each "
+        "scripts: chains of 3-14 blocks, 0-3 source steps, errors / corrupt blocks / forged blocks with a re-sealed state diff / valid blocks of another height / stale heads / late answers; block formats 0.13.1-0.14.1), each "
         "validated by TLC against SyncTrace.tla and by the property monitors; a run is non-trivial when it contains a "
         "source step or a revert (counted in runs_with_source_steps / runs_with_reverts)")
